@@ -104,6 +104,81 @@ theorem majority_count (n : Nat) (good near band : Nat → Prop)
   · rw [hsplit]; omega
   · omega
 
+/-- the same with nothing known about the bad lines: fewer than one third of them suffices -/
+theorem third_count (n : Nat) (good near band : Nat → Prop)
+    (ha : ∀ i, i < n → good i → near i → band i)
+    (hb : ∀ i, i < n → good i → ¬ near i → ∃ p, i = p + 1 ∧ ¬ good p)
+    (hmaj : 3 * ((range n).filter (fun i => ¬ good i)).card < n) :
+    ((range n).filter near).card < 2 * ((range n).filter (fun i => near i ∧ band i)).card ∧
+    n - 2 * ((range n).filter (fun i => ¬ good i)).card ≤ ((range n).filter (fun i => near i ∧ band i)).card := by
+  set R := range n with hR
+  set G := R.filter good with hG
+  set B := R.filter (fun i => ¬ good i) with hB
+  have hGB : G.card + B.card = n := by
+    have := Finset.card_filter_add_card_filter_not (s := R) good
+    rw [hR, card_range] at this
+    exact this
+  set Lost := R.filter (fun i => good i ∧ ¬ near i) with hLost
+  set K := Lost.image (fun i => i - 1) with hK
+  have hlost : ∀ i ∈ Lost, ∃ p, i = p + 1 ∧ ¬ good p := by
+    intro i hi
+    rw [hLost, mem_filter, hR, mem_range] at hi
+    exact hb i hi.1 hi.2.1 hi.2.2
+  have hKcard : K.card = Lost.card := by
+    apply card_image_of_injOn
+    intro i hi j hj hij
+    obtain ⟨p, hp, _⟩ := hlost i hi
+    obtain ⟨q, hq, _⟩ := hlost j hj
+    simp only at hij
+    omega
+  have hKB : K ⊆ B := by
+    intro p hp
+    rw [hK, mem_image] at hp
+    obtain ⟨i, hi, hip⟩ := hp
+    obtain ⟨q, hq, hng⟩ := hlost i hi
+    have hin : i < n := by
+      rw [hLost, mem_filter, hR, mem_range] at hi; exact hi.1
+    have : p = q := by omega
+    rw [hB, mem_filter, hR, mem_range]
+    subst this
+    exact ⟨by omega, hng⟩
+  set NX := R.filter (fun i => near i ∧ ¬ band i) with hNX
+  have hNXsub : NX ⊆ B := by
+    intro i hi
+    rw [hNX, mem_filter] at hi
+    obtain ⟨hiR, hnear, hnb⟩ := hi
+    have hin : i < n := by rw [hR, mem_range] at hiR; exact hiR
+    rw [hB, mem_filter]
+    refine ⟨hiR, ?_⟩
+    intro hg
+    exact hnb (ha i hin hg hnear)
+  set NB := R.filter (fun i => near i ∧ band i) with hNB
+  have hGsub : G \ Lost ⊆ NB := by
+    intro i hi
+    rw [mem_sdiff, hG, mem_filter] at hi
+    obtain ⟨⟨hiR, hg⟩, hnl⟩ := hi
+    have hin : i < n := by rw [hR, mem_range] at hiR; exact hiR
+    have hnear : near i := by
+      by_contra hn
+      apply hnl
+      rw [hLost, mem_filter]
+      exact ⟨hiR, hg, hn⟩
+    rw [hNB, mem_filter]
+    exact ⟨hiR, hnear, ha i hin hg hnear⟩
+  have hNBcard : G.card - Lost.card ≤ NB.card := by
+    calc G.card - Lost.card ≤ (G \ Lost).card := le_card_sdiff _ _
+      _ ≤ NB.card := card_le_card hGsub
+  have hsplit : (R.filter near).card = NB.card + NX.card := by
+    have := Finset.card_filter_add_card_filter_not (s := R.filter near) band
+    rw [filter_filter, filter_filter] at this
+    rw [hNB, hNX]
+    exact this.symm
+  have hKle : K.card ≤ B.card := card_le_card hKB
+  have hNXle : NX.card ≤ B.card := card_le_card hNXsub
+  constructor
+  · rw [hsplit]; omega
+  · omega
+
 /-- `countP` as the number of indices at which the predicate holds -/
 theorem countP_eq_card {α : Type} (xs : List α) (d : α) (p : α → Bool) :
     xs.countP p = ((range xs.length).filter (fun i => p (xs.getD i d) = true)).card := by
